@@ -294,7 +294,7 @@ def run(tier, seed, jobs):
     canary = make_canary()
     from mc import progfam
     # hand-built family (mc/progfam.py): every alternative of the overwriting mutation on every core program
-    fam = [(progfam.family_configs(LANGS, 'core' if tier == 'thorough' else 'mini'), ['first'], 1, 1, {'chunk': 24, 'run_kw': {'deviate_stages': ('overwrite',)}})]
+    fam = [(progfam.family_configs(LANGS if tier == 'thorough' else ('kotlin', 'java'), 'core' if tier == 'thorough' else 'mini'), ['first'], 1, 1, {'chunk': 3, 'run_kw': {'deviate_stages': ('overwrite',)}})]
     for part in fam + [tuple(p_) + ({},) for p_ in plan(tier)]:
         configs, policies, bound, nslices, extra = part
         tot = explore.explore(configs, policies, bound, SPEC, {'canary': canary}, jobs, seed, nslices,
